@@ -34,14 +34,14 @@ type Engine struct {
 	allPkgs     []*types.Package
 	pkgByPath   map[string]*types.Package
 
-	mu          sync.Mutex
-	tidTypes    map[string]types.Type
-	ifacePreds  map[string]types.Type
-	ifaceNames  map[string]bool
-	extraUFuns  map[string]int
-	extraUPreds map[string]int
-	siteAssumes map[string]string
-	loadErrs    []string
+	mu            sync.Mutex
+	tidTypes      map[string]types.Type
+	ifacePreds    map[string]types.Type
+	ifaceNames    map[string]bool
+	extraUFuns    map[string]int
+	extraUPreds   map[string]int
+	siteAssumes   map[string]string
+	loadErrs      []string
 	contractFiles []string
 }
 
@@ -259,7 +259,7 @@ func displayName(key string) string {
 func (e *Engine) newExec(fn *ssa.Function, quiet bool) *FnExec {
 	fe := &FnExec{eng: e, script: &Script{}, regs: map[ssa.Value]Val{}, heapSort: map[string]string{}, quiet: quiet,
 		sentinel: map[*ssa.Global]int{}, globals: map[*ssa.Global]Val{}, tids: map[string]int{}, unknown: map[string]int{},
-		used: map[string]bool{}, abstracted: map[string]int{}, phiEdges: map[*ssa.BasicBlock][]phiEdge{}}
+		used: map[string]bool{}, abstracted: map[string]int{}, phiEdges: map[*ssa.BasicBlock][]phiEdge{}, ifaceType: map[Term]types.Type{}, owned: map[Term]bool{}}
 	if fn.Pkg != nil {
 		fe.pkg = fn.Pkg.Pkg
 	} else if fn.Parent() != nil {
@@ -277,7 +277,7 @@ func (e *Engine) newExec(fn *ssa.Function, quiet bool) *FnExec {
 }
 
 func (e *Engine) extraPrelude(fe *FnExec) string {
-	var b strings.Builder
+	var b, b2 strings.Builder
 	e.mu.Lock()
 	defer e.mu.Unlock()
 	declared := map[string]bool{}
@@ -344,6 +344,21 @@ func (e *Engine) extraPrelude(fe *FnExec) string {
 			fmt.Fprintf(&b, "(assert (= (%s %d) %s)) ; %s implements %s\n", sym(p), fe.tids[tn], v, tn, p)
 		}
 	}
+	// interface subtyping between the interface predicates in play
+	pk := sortedKeys(preds)
+	for _, a := range pk {
+		for _, b := range pk {
+			if a == b || preds[a] == nil || preds[b] == nil {
+				continue
+			}
+			ia, ok1 := preds[a].Underlying().(*types.Interface)
+			ib, ok2 := preds[b].Underlying().(*types.Interface)
+			if ok1 && ok2 && types.Implements(ia, ib) {
+				fmt.Fprintf(&b2, "(assert (forall ((t Int)) (=> (%s t) (%s t)))) ; %s is a sub-interface of %s\n", sym(a), sym(b), a, b)
+			}
+		}
+	}
+	b.WriteString(b2.String())
 	for _, ax := range e.voc.Axioms {
 		fmt.Fprintf(&b, "(assert %s) ; axiom %s\n", ax.SMT, ax.Name)
 	}
@@ -474,11 +489,15 @@ func (fe *FnExec) setupEntry(fr *frame) {
 			fr.binds["recv"] = v
 			if pv, ok := v.(PtrV); ok {
 				fe.assume(sx("<", "0", pv.Base), "receiver is not nil")
+				fe.assume(tEq(sx("dyn", pv.Base), tInt(int64(fe.tid(p.Type())))), "dynamic type of the receiver")
 			}
 		}
 		switch x := v.(type) {
 		case PtrV:
 			fe.assume(sx("<=", x.Base, "HW"), "parameter object existed at entry")
+			if obj, ok := fe.objOf(x); ok {
+				fe.assumeTypeInv(st, obj, "entry")
+			}
 		case RefV:
 			fe.assume(sx("<=", x.T, "HW"), "parameter object existed at entry")
 		}
@@ -520,3 +539,35 @@ func (fe *FnExec) elemFacts(fr *frame, st *State, p PtrV, loaded Val) {
 }
 
 var _ = ast.NewIdent
+
+// ifaceSig finds the signature of an interface method given its contract key "(pkg.Iface).Method".
+func (e *Engine) ifaceSig(key string) *types.Signature {
+	k := strings.TrimPrefix(key, "(")
+	i := strings.Index(k, ").")
+	if i < 0 {
+		return nil
+	}
+	tn, mn := k[:i], k[i+2:]
+	j := strings.LastIndex(tn, ".")
+	if j < 0 {
+		return nil
+	}
+	pkg := e.pkgByPath[tn[:j]]
+	if pkg == nil {
+		return nil
+	}
+	obj := pkg.Scope().Lookup(tn[j+1:])
+	if obj == nil {
+		return nil
+	}
+	iface, ok := obj.Type().Underlying().(*types.Interface)
+	if !ok {
+		return nil
+	}
+	for i := 0; i < iface.NumMethods(); i++ {
+		if iface.Method(i).Name() == mn {
+			return iface.Method(i).Type().(*types.Signature)
+		}
+	}
+	return nil
+}
